@@ -163,9 +163,14 @@ FilterStruct(data, rowlen, d) ==
         [data |-> Cod!ZStored(data, K.zblock), d |-> MapPut(d, NameFilter, OName(NameFlateDecode))]
     ELSE LET nrows == (Len(data) + rowlen - 1) \div rowlen
              padded == data \o [i \in 1..(nrows * rowlen - Len(data)) |-> 32]
-             fts == [r \in 1..nrows |-> IF K.pngft = 5 THEN (r + 1) % 5 ELSE K.pngft]
+             \* 5, 6: filter type chosen per row (the predictor number is only a hint): every type follows every other,
+             \* in particular None is directly followed by Up, Average and Paeth rows
+             mixA == <<2, 3, 4, 0, 1>>
+             mixB == <<0, 2, 0, 3, 0, 4, 1, 0>>
+             fts == [r \in 1..nrows |-> IF K.pngft = 5 THEN mixA[((r - 1) % 5) + 1]
+                                        ELSE IF K.pngft = 6 THEN mixB[((r - 1) % 8) + 1] ELSE K.pngft]
              enc == Cod!PngEncode(padded, 1, rowlen, fts)
-             parms == ODict((NamePredictor :> NatObj(10 + (IF K.pngft = 5 THEN 5 ELSE K.pngft))) @@ (NameColumns :> NatObj(rowlen)))
+             parms == ODict((NamePredictor :> NatObj(10 + (IF K.pngft >= 5 THEN 5 ELSE K.pngft))) @@ (NameColumns :> NatObj(rowlen)))
          IN [data |-> Cod!ZStored(enc, K.zblock),
              d |-> MapPut(MapPut(d, NameFilter, OName(NameFlateDecode)), NameDecodeParms, parms)]
 
@@ -185,6 +190,10 @@ CMember ==
           /\ moffs' = Append(moffs, [num |-> Top1.num, off |-> Len(out \o sep)])
     /\ todo' = <<ValN(Top1.v)>> \o Rest /\ UNCHANGED <<offs, plan, outer>>
 
+\* K.ghost # 0 (used by the C08 file set only): every object stream additionally holds a member with
+\* that number which no cross-reference entry names.  Such an object is not part of the document the file
+\* defines (the StrictReader ignores it); a loader that nevertheless keeps it must do so independently of
+\* the order in which the containers are processed.
 CEnd ==
     /\ todo # <<>> /\ Top1.w = "cend"
     /\ \E hs \in {<<32>>, <<10>>, <<13, 10>>}, tail \in {<<>>, <<10>>} :
@@ -307,6 +316,7 @@ RevItems(doc, k, r) ==
         containers == Concat([c \in 1..Len(rev.comp) |->
                           <<[w |-> "cstart"]>> \o
                           [m \in 1..Len(rev.comp[c].members) |-> [w |-> "cmember", num |-> rev.comp[c].members[m].num, v |-> rev.comp[c].members[m].val]] \o
+                          (IF k.ghost # 0 THEN <<[w |-> "cmember", num |-> k.ghost, v |-> OArr(<<NatObj(rev.comp[c].cnum), NatObj(r)>>)]>> ELSE <<>>) \o
                           <<[w |-> "cend", cnum |-> rev.comp[c].cnum]>>])
     IN <<[w |-> "revstart", r |-> r]>> \o
        Concat([i \in 1..Len(objs) |-> ObjItems(objs[i], 0)]) \o
